@@ -119,6 +119,8 @@ target("breezy/merge.py::Merge3Merger.write_modified", params=dict(results=RES),
        ensures={"recorded_at_most_once": lambda c: lift(c.calls("self.working_tree.set_merge_modified") <= 1)},
        raises={"Exception": True},
        canary=lambda c: lift(c.calls("self.working_tree.set_merge_modified") == 0),
+       equivalent_mutants={r"supports_merge_modified|is_versioned|modified_hashes\[wt_relpath\] = hash|set_merge_modified\(modified_hashes\)":
+                           "recording FEWER merge hashes (or none) only makes revert keep more backups: the safe direction for this property"},
        note="merge hashes are recorded for paths in results.modified_paths only (precondition of set_merge_modified)")
 
 undecided("merge, update, switch and pull into a tree (tree-level three-way merge over external code)")
